@@ -161,6 +161,9 @@ def fault_line(rng, kind, prog):
     raise ValueError(kind)
 
 
+# a valid line of the same size for every faulty line that has one
+VALID_TWIN = {"zrange 256": "zrange 25", "zrange -1": "zrange 1", "#d8 256": "#d8 25", "#d4 0x1f": "#d4 0xf", "zrange 0x1ff": "zrange 0x1f",
+              "#d8 undefined_sym_x": "#d8 0", "zrange undefined_sym_x": "zrange 0", "#d16 1, nothere + 1": "#d16 1, 0 + 1"}
 MISSING_OPERAND = ("#res", "#align", "#addr", "#d8", "zq_tmp =", "#d8 1 +", "#d16 2 *")
 
 
@@ -304,11 +307,14 @@ def fault_case(ctx, rng, worker):
                 ctx.excluded += 1
                 continue
             u3(ctx, job, rec, files, count_nontrivial=False)
-            if ffile != "sub/tail.asm" and any(l.lstrip().startswith("#d ") for k, l in enumerate(lines) if k != fidx and l not in body_lines):
-                # a decoration that emits data moves every later address: the decorated program without the fault line
-                # must still be valid, otherwise the case contains a second, unintended fault (e.g. an operand that no
-                # longer fits the smallest encoding and makes two rules tie)
-                ctl_lines = [l for k, l in enumerate(lines) if k != fidx]
+            substitute = VALID_TWIN.get(re.sub(r";\*.*?\*;", "", fault_text).split(";")[0].strip())
+            if ffile != "sub/tail.asm" and (substitute is not None or
+                                            any(l.lstrip().startswith("#d ") for k, l in enumerate(lines) if k != fidx and l not in body_lines)):
+                # the fault line itself (it has a size) and a decoration that emits data move every later address: the same
+                # program with a valid line of the same size in place of the fault must be valid, otherwise the case
+                # contains a second, unintended fault (e.g. an operand that no longer fits the smallest encoding and makes
+                # two rules tie), which may legitimately be reported first
+                ctl_lines = [(substitute if k == fidx else l) for k, l in enumerate(lines) if k != fidx or substitute is not None]
                 ctl_body = "\n".join(ctl_lines) + "\n"
                 ctl_files = dict(files)
                 ctl_files[ffile] = (head + "\n\n" + ctl_body) if not use_include else ctl_body
